@@ -93,7 +93,84 @@ print(bad)
             "how": "module compiled by the working-tree compiler; calls made natively"}
 
 
+# ------------------------------------------------------------------------------------------------------------
+# dict.pop: d.pop(key) raises KeyError for a missing key; only d.pop(key, default) may use the helper that swallows a miss
+
+G_CAPI, G_NARGS, G_SUBST = z3.Ints("ghost.substitute.capi_func ghost.substitute.nargs ghost.substitute.count")
+POP_FIELDS = {"obj:OptimizeBuiltinCalls": {"PyDict_Pop_func_type": "any", "PyDict_Pop_ignore_func_type": "any"},
+              "obj:Node": {"pos": "any", "result_is_used": "bool"}}
+
+
+def _pop_callees():
+    P = __import__("dv.pyfe", fromlist=["PAny"])
+    return {
+        "ExprNodes.NullNode": Callee("ExprNodes.NullNode", ["pos"], result_kind="ref:obj:Node", modifies=lambda e: [("alloc",)],
+                                     ensures=[("a new node", lambda e: e.result >= z3.Int("H0.alloc"))]),
+        "OptimizeBuiltinCalls._error_wrong_arg_count": Callee("OptimizeBuiltinCalls._error_wrong_arg_count", ["self", "name", "node", "args", "expected"]),
+        "load_c_utility": Callee("load_c_utility", ["name"], result_kind=lambda ex, e: P.PAny(e.name)),
+        "OptimizeBuiltinCalls._substitute_method_call": Callee(
+            "OptimizeBuiltinCalls._substitute_method_call",
+            ["self", "node", "function", "name", "func_type", "attr_name", "is_unbound_method", "args", "may_return_none", "utility_code"],
+            result_kind="ref:obj:Node",
+            ensures=[("ghost record of the substitution", lambda e: And(G_SUBST == 1, G_CAPI == e.name, G_NARGS == e.h0.len(e.args)))]),
+    }
+
+
+def _pop_post(e):
+    n0 = e.h0.len(e.args)
+    ignore = G_CAPI == intern_id("__Pyx_PyDict_Pop_ignore")
+    plain = G_CAPI == intern_id("__Pyx_PyDict_Pop")
+    substituted = And(Or(n0 == 2, n0 == 3), G_SUBST == 1, G_NARGS == 3, Or(ignore, plain),
+                      # the helper that ignores a missing key needs an explicit default (3 arguments) and an unused result
+                      Implies(ignore, And(n0 == 3, e.h0.fld("result_is_used", e.node) == 0)),
+                      Implies(n0 == 2, plain))
+    return Or(And(e.result == e.node, n0 != 2, n0 != 3), substituted)
+
+
+def _pop_native(model, obname):
+    import os
+    import subprocess
+    from dv import cextract
+    src = ("# cython: language_level=3\n"
+           "def pop_stmt(dict d, key):\n    d.pop(key)\n    return d\ndef pop_stmt_default(dict d, key):\n    d.pop(key, None)\n    return d\n"
+           "def pop_used(dict d, key): return d.pop(key)\n")
+    try:
+        ctext, cfile = cextract.compile_pyx(src, name="dvdictpop")
+    except Exception as ex:
+        return {"confirmed": False, "note": "compile failed: %r" % ex}
+    d = os.path.dirname(cfile)
+    p = subprocess.run(["clang", "-shared", "-fPIC", "-O0", "-w", "-I" + cextract.PY_INCLUDE, cfile, "-o", os.path.join(d, "dvdictpop.so")],
+                       capture_output=True, text=True)
+    if p.returncode != 0:
+        return {"confirmed": False, "note": "build failed " + p.stderr[-300:]}
+    code = r'''
+import sys; sys.path.insert(0, %r); import dvdictpop as m
+def run(f, *a):
+    try: return ("ok", f(*a))
+    except Exception as e: return (type(e).__name__,)
+want = [("pop_stmt", ({"a": 1}, "zz"), ("KeyError",)), ("pop_stmt", ({}, 1), ("KeyError",)), ("pop_stmt", ({"a": 1}, "a"), ("ok", {})),
+        ("pop_stmt_default", ({"a": 1}, "zz"), ("ok", {"a": 1})), ("pop_used", ({"a": 1}, "zz"), ("KeyError",)), ("pop_stmt", ({"a": 1}, []), ("TypeError",))]
+print([(n, a, run(getattr(m, n), *a), w) for n, a, w in want if run(getattr(m, n), *a) != w])
+''' % d
+    r = subprocess.run(["/venv/bin/python", "-c", code], capture_output=True, text=True, timeout=120)
+    out = r.stdout.strip()
+    return {"inputs": "d.pop(key) as a statement / with a default / with its result used, for a missing, a present and an unhashable key", "actual": (out or r.stderr[-300:])[:400],
+            "expected": "KeyError for a missing key unless a default is given", "confirmed": out != "[]", "obligation": obname,
+            "how": "module compiled by the working-tree compiler; calls made natively"}
+
+
 def units(tier):
+    pop = PyUnit("Optimize.OptimizeBuiltinCalls._handle_simple_method_dict_pop", {"C13": None}, FILE, "OptimizeBuiltinCalls._handle_simple_method_dict_pop",
+                 [("self", "ref:obj:OptimizeBuiltinCalls"), ("node", "ref:obj:Node"), ("function", "any"), ("args", "ref:list"), ("is_unbound_method", "bool")],
+                 requires=[("the argument list is a list (receiver included)", lambda e: e.h0.len(e.args) >= 0)],
+                 ensures=[("d.pop(key) keeps the helper that raises KeyError; the miss-ignoring helper needs an explicit default and an unused result",
+                           _pop_post)],
+                 callees=_pop_callees(), native=_pop_native, search=lambda seed, ob: _pop_native({}, ob),
+                 options={"fields": POP_FIELDS, "merge": False, "elem_kind": {"list": "any"}, "modules": {}})
+    return [pop] + _generic_units(tier)
+
+
+def _generic_units(tier):
     u = PyUnit("Optimize.OptimizeBuiltinCalls._optimise_generic_builtin_method_call", {"C13": None, "C36": ["post", "subset"]}, FILE,
                "OptimizeBuiltinCalls._optimise_generic_builtin_method_call",
                [("self", "ref:obj:OptimizeBuiltinCalls"), ("node", "ref:obj:Node"), ("attr_name", "any"), ("function", "ref:obj:Node"),
